@@ -207,12 +207,15 @@ func linearComplexity(a []bool, M int) int {
 	var d int = 0
 	var B_, C, P, T []int
 
-	B_ = make([]int, M)
-	C = make([]int, M)
-	P = make([]int, M)
-	T = make([]int, M)
+	// The connection polynomial can reach degree M (e.g. for the block 0...01),
+	// so M+1 coefficients are needed.
+	size := M + 1
+	B_ = make([]int, size)
+	C = make([]int, size)
+	P = make([]int, size)
+	T = make([]int, size)
 
-	for i := 0; i < M; i++ {
+	for i := 0; i < size; i++ {
 		B_[i] = 0
 		C[i] = 0
 		T[i] = 0
@@ -230,22 +233,22 @@ func linearComplexity(a []bool, M int) int {
 		}
 		d = d % 2
 		if d == 1 {
-			for i := 0; i < M; i++ {
+			for i := 0; i < size; i++ {
 				T[i] = C[i]
 				P[i] = 0
 			}
-			for j := 0; j < M; j++ {
+			for j := 0; j < size; j++ {
 				if B_[j] == 1 {
 					P[j+N_-m] = 1
 				}
 			}
-			for i := 0; i < M; i++ {
+			for i := 0; i < size; i++ {
 				C[i] = (C[i] + P[i]) % 2
 			}
 			if L <= N_/2 {
 				L = N_ + 1 - L
 				m = N_
-				for i := 0; i < M; i++ {
+				for i := 0; i < size; i++ {
 					B_[i] = T[i]
 				}
 			}
